@@ -209,6 +209,22 @@ func assignFitness(pop *genetics.Population, family int, frng *rand.Rand, gen in
 			o.Fitness = float64(en) + 0.1*float64(len(o.Genotype.Nodes)) + 0.001*float64(i+1) + 0.0001*float64(gen)
 		}
 	}
+	evaluatorLeftovers(pop, gen)
+}
+
+// evaluatorLeftovers: what an evaluator leaves in the organisms besides the fitness - winner flags (on organisms that need
+// not be the fittest), error values, a built phenotype, a data object.  A turnover is governed by the fitness values.
+func evaluatorLeftovers(pop *genetics.Population, gen int) {
+	for i, o := range pop.Organisms {
+		o.IsWinner = (i*7+gen*3)%5 == 0
+		o.Error = float64((i*13+gen)%7) / 7
+		if (i+gen)%3 == 0 {
+			_, _ = o.Phenotype()
+		}
+		if (i+gen)%4 == 1 {
+			o.Data = &genetics.OrganismData{Value: i}
+		}
+	}
 }
 
 func distinctPositive(pop *genetics.Population) bool {
